@@ -200,6 +200,85 @@ def zero_init(facts, res):
                 res.violation(R + ".group-ctor", tbf.rel(facts.path_of(m)), m["qname"], "missing-block@%d" % m["l"][1], m["l"][1], "constructor does not size block(s) %s" % missing)
 
 
+def copy_provenance(facts, res):
+    """C06.5: in the group constructor the sorted slot p receives the original index orig(p) and the data
+    row of input particle orig(p), value by value - the same orig(p) on both sides, taken from the group
+    property at the same p"""
+    R = "C06.5.copy-provenance"
+    import stages
+    pt = [m for m in facts.methods_of("TbfParticlesContainer") if m["kind"] == "CXXConstructor" and len(m["params"]) == 3 and tbf.body(m) is not None and "GroupInfoClass" in m["params"][0]["t"]]
+    if len(pt) != 1:
+        raise AnalysisBroken("TbfParticlesContainer(group info, positions, converter) constructor not found")
+    fn = pt[0]
+    fm = stages.FnModel(facts, fn)
+    f = tbf.rel(facts.path_of(fn))
+    ginfo, positions = fn["params"][0]["did"], fn["params"][1]["did"]
+
+    def block_of(accessor):
+        ms = [m for m in facts.methods_of("TbfParticlesContainer") if m["name"] == accessor]
+        ks = set()
+        for m in ms:
+            ks |= set(re.findall(r"getViewerForBlock(?:Const)?<(\d+)>\(\)\.getItem\(leafHeader\.offSet", facts.ntext(tbf.body(m))))
+        if len(ks) != 1:
+            raise AnalysisBroken("cannot derive the memory block behind %s" % accessor)
+        return next(iter(ks))
+    kidx, kdata = block_of("getParticleIndexes"), block_of("getParticleData")
+
+    def viewer_block(call):
+        b = strip(tbf.call_base(call))
+        d = fm.decls.get(b.get("did")) if b is not None and b.get("k") == "DeclRefExpr" else None
+        t = facts.ntext(kids(d)[0]) if d is not None and kids(d) else facts.ntext(b) if b is not None else ""
+        m = re.search(r"getViewerForBlock<(\d+)>", t)
+        return m.group(1) if m else None
+
+    def deref(n):
+        n = strip(n)
+        for _ in range(6):
+            if n.get("k") == "DeclRefExpr":
+                d = fm.decls.get(n.get("did"))
+                if d is not None and d.get("k") == "VarDecl" and kids(d) and not fm.assigned.get(n["did"]):
+                    n = strip(kids(d)[0])
+                    continue
+            break
+        return n
+    idx_store, data_store = [], []
+    for x in walk(fm.body):
+        if x.get("k") == "BinaryOperator" and x.get("op") == "=":
+            l = strip(kids(x)[0])
+            if l.get("k") in ("CallExpr", "CXXMemberCallExpr") and tbf.callee_name(l) == "getItem":
+                vb = viewer_block(l)
+                if vb == kidx:
+                    idx_store.append((x, l, kids(x)[1]))
+                elif vb == kdata:
+                    data_store.append((x, l, kids(x)[1]))
+    if len(idx_store) != 1 or len(data_store) != 1:
+        raise AnalysisBroken("particle group constructor: %d index stores / %d data stores recognised (1/1 confirmed by reading)" % (len(idx_store), len(data_store)))
+    xi, li, ri = idx_store[0]
+    xd, ld, rd = data_store[0]
+    slot_i = facts.ntext(tbf.call_args(li)[0])
+    slot_d, val_d = [facts.ntext(a) for a in tbf.call_args(ld)]
+    # stored index = groupInfo.getParticleIndex(slot)
+    src_i = deref(ri)
+    ok_i = src_i.get("k") in ("CallExpr", "CXXMemberCallExpr") and tbf.callee_name(src_i) == "getParticleIndex" \
+        and strip(tbf.call_base(src_i)).get("did") == ginfo and facts.ntext(tbf.call_args(src_i)[0]) == slot_i
+    res.instance(R, "index store", facts.loc(xi), "slot %s <- %s" % (slot_i, facts.ntext(src_i)[:80]))
+    if not ok_i:
+        res.violation(R, f, fn["qname"], "index-store", xi["l"][1], "sorted slot %s stores `%s`, not the group property's getParticleIndex(%s): particles lose their original index" % (slot_i, facts.ntext(src_i)[:60], slot_i))
+    # data: positions[orig(slot)][value]
+    src_d = deref(rd)
+    ok_shape = src_d.get("k") in ("ArraySubscriptExpr", "CXXOperatorCallExpr")
+    inner = strip(kids(src_d)[-2]) if ok_shape else None
+    ok_shape = ok_shape and inner is not None and inner.get("k") in ("ArraySubscriptExpr", "CXXOperatorCallExpr") and strip(kids(inner)[-2]).get("did") == positions
+    row = deref(kids(inner)[-1]) if ok_shape else None
+    col = facts.ntext(kids(src_d)[-1]) if ok_shape else None
+    res.instance(R, "data store", facts.loc(xd), "slot (%s,%s) <- %s" % (slot_d, val_d, facts.ntext(src_d)[:80]))
+    ok_row = ok_shape and row.get("k") in ("CallExpr", "CXXMemberCallExpr") and tbf.callee_name(row) == "getParticleIndex" and facts.ntext(tbf.call_args(row)[0]) == slot_d
+    if not ok_shape or not ok_row or slot_d != slot_i:
+        res.violation(R, f, fn["qname"], "data-row", xd["l"][1], "sorted slot %s does not receive the data row of input particle getParticleIndex(%s) (got `%s`): data and index of a particle no longer belong together" % (slot_d, slot_d, facts.ntext(src_d)[:60]))
+    elif col != val_d:
+        res.violation(R, f, fn["qname"], "data-column", xd["l"][1], "value %s of the slot is read from value %s of the input" % (val_d, col))
+
+
 def narrowing(res, tier):
     R = "C06.2.no-narrowing"
     for comp, flags in (("g++", ["-Wconversion", "-Wfloat-conversion", "-Wno-sign-conversion"]),) + ((("clang++", ["-Wimplicit-float-conversion", "-Wimplicit-int-conversion", "-Wshorten-64-to-32"]),) if tier == "thorough" else ()):
@@ -331,6 +410,8 @@ def run(res, tier):
     res.rule("C06.3 probe kernel through 6 executor classes: headers const, particle data pointers-to-const at every operator; const_cast in shipped kernels only into const callee parameters")
     res.rule("C06.4 Morton<->curve domain typing in ordering classes with converters")
     zero_init(facts, res)
+    res.rule("C06.5 group constructor: slot p stores orig(p) = groupInfo.getParticleIndex(p) and the data row of input particle orig(p), value by value")
+    copy_provenance(facts, res)
     narrowing(res, tier)
     k = constcast_lint(facts, res)
     curve_domains(facts, res)
